@@ -41,11 +41,32 @@ func init() {
 						s.Parallelism, s.Strategy, s.MaxAttempts, s.RetryDelay = shape, strat, att, delay
 						s.MaxFail = int(att) * 2
 						if thorough {
-							s.PodActions = append(append([]string{}, fullPod...), "vanish")
+							// Thorough tier: pod disappearance and one lagging cache everywhere; the full
+							// kubelet alphabet where the space stays small, otherwise pods finish straight
+							// from pending. Every unit is sized to finish (DESIGN.md 10.9).
 							s.MaxVanish = 1
 							s.Budget = mc.Budget{Lag: 1}
-							if shape == "none" {
+							switch {
+							case shape == "none":
+								s.PodActions = append(append([]string{}, fullPod...), "vanish")
 								s.Budget.Lag = 2
+							case att == 1:
+								s.PodActions = append(append([]string{}, fullPod...), "vanish")
+							default:
+								if shape != "count2" && (att == 3 || delay > 0) {
+									continue // keys/matrix only differ from count in how indexes are named
+								}
+								s.PodActions = []string{"quick", "vanish"}
+								s.MaxFail = int(att)
+								switch {
+								case att == 2 && delay > 0:
+									s.Budget = mc.Budget{} // waiting out the delay multiplies the instants: fresh caches
+								case att == 3 && delay == 0:
+									s.PodActions, s.MaxVanish = []string{"quick"}, 0
+								case att == 3:
+									s.PodActions, s.MaxVanish = []string{"quick"}, 0
+									s.Budget = mc.Budget{}
+								}
 							}
 							add(s)
 							continue
